@@ -202,8 +202,8 @@ func c15Random(r *vh.Rand, explicit bool) c15In {
 
 // deterministic small scope: snap 1 holds itself and snap 2, waits t1, holds again, waits t2, holds again
 func c15Scoped() []c15In {
-	ts := []int64{1, 47 * c15H, 48*c15H - 1, 48 * c15H, 48*c15H + 1, 49 * c15H, 10 * c15D}
-	lrs := []int64{-c15H, -88 * c15D, -90*c15D + 47*c15H, -90*c15D + 49*c15H}
+	ts := []int64{1, 47 * c15H, 48*c15H - 1, 48 * c15H, 48*c15H + 1, 10 * c15D}
+	lrs := []int64{-c15H, -88 * c15D, -90*c15D + 47*c15H}
 	var out []c15In
 	for _, lr := range lrs {
 		for _, t1 := range ts {
@@ -226,6 +226,9 @@ func c15Scoped() []c15In {
 			{K: "hold", G: 2, Snaps: []int{1}}, {K: "reset", S: 1}, {K: "refreshed", S: 1}, {K: "tick", D: 100*c15D - 1}, {K: "tick", D: 1},
 			{K: "tick", D: 1}, {K: "proceed", G: 0, Snaps: []int{2}}, {K: "tick", D: 200 * c15D}}})
 	}
+	// the witness of C15_explicit_duration_refuted: explicit durations are not bounded by 48 h per episode
+	out = append(out, c15In{N: 2, LR: []int64{-c15H, -c15H}, Ops: []c15Op{{K: "hold", G: 1, Snaps: []int{2}}, {K: "tick", D: 47 * c15H},
+		{K: "hold", G: 1, Dur: 47 * c15H, Snaps: []int{2}}, {K: "tick", D: 2 * c15H}}})
 	return out
 }
 
@@ -237,7 +240,7 @@ func c15Finding() c15In {
 
 func c15GenAll(r *vh.Rand, tier string, n int) []c15In {
 	if n == 0 {
-		n = 250
+		n = 120
 	}
 	ins := []c15In{c15Finding()}
 	ins = append(ins, c15Scoped()...)
